@@ -44,7 +44,7 @@ def main():
             k = (f["prop"], f.get("class", "violation"))
             shown[k] += 1
             if shown[k] <= int(os.environ.get("DEV_SHOW", "3")):
-                print("  ", f["prop"], f.get("class", "violation"), f["id"], f["what"][:600])
+                print("  ", f["prop"], f.get("class", "violation"), f["id"], f["what"][:int(os.environ.get("DEV_LEN", "600"))])
         print("trace events %d, viol %s" % (tv["events"], tv["viol"][:5]))
     else:
         tokens = os.path.join(sc, "tokens.txt")
